@@ -45,7 +45,18 @@ type SK struct {
 	deps uint64
 	why  string   // provenance of the worst component (for reports)
 	srcs []string // for Tainted: the distinct user-controlled sources (sorted)
+	esc  uint8    // for Tainted: metacharacter classes already escaped on every tainted component
 }
+
+// escape classes
+const (
+	escBackslash uint8 = 1 << iota
+	escBacktick
+	escDollar
+	escDQuote
+	escNewline
+	escSQuote
+)
 
 func mergeSrcs(a, b []string) []string {
 	if len(b) == 0 {
@@ -78,6 +89,16 @@ func skJoin(a, b SK) SK {
 		out.k = b.k
 		out.why = b.why
 	}
+	// escaped classes: a value carries parameter- or source-derived text if it is Tainted or has deps
+	ca, cb := a.k == KTainted || a.deps != 0, b.k == KTainted || b.deps != 0
+	switch {
+	case ca && cb:
+		out.esc = a.esc & b.esc
+	case ca:
+		out.esc = a.esc
+	case cb:
+		out.esc = b.esc
+	}
 	return out
 }
 
@@ -94,6 +115,10 @@ type taintConfig struct {
 	modelType  func(t *types.Named) bool
 	// writes into a buffer by an external function: callee → (buffer arg index, kind written)
 	bufWriters map[string]Kind
+	// loopEscapers: recognise byte-wise escaper loops (if s[i] == c { write escape }) as escaping c
+	loopEscapers bool
+	// onSprintf is called for every format call the slice passes through (JS sinks are judged there)
+	onSprintf func(fn *ssa.Function, cc *ssa.CallCommon, format string, ops []ssa.Value, pos token.Pos)
 }
 
 type taintEngine struct {
@@ -137,6 +162,20 @@ func newTaintEngine(p *core.Prog, cfg *taintConfig, scopeRels []string) *taintEn
 					if fa, ok := x.Addr.(*ssa.FieldAddr); ok {
 						if fv := fieldVarOf(fa.X.Type(), fa.Field); fv != nil {
 							e.fieldStores[fv] = append(e.fieldStores[fv], x.Val)
+						}
+					}
+				case *ssa.MapUpdate:
+					// m.field[k] = v : the value joins the field's content
+					if ld, ok := x.Map.(*ssa.UnOp); ok && ld.Op == token.MUL {
+						if fa, ok := ld.X.(*ssa.FieldAddr); ok {
+							if fv := fieldVarOf(fa.X.Type(), fa.Field); fv != nil {
+								e.fieldStores[fv] = append(e.fieldStores[fv], x.Value)
+							}
+						}
+					}
+					if fl, ok := x.Map.(*ssa.Field); ok {
+						if fv := fieldVarOf(fl.X.Type(), fl.Field); fv != nil {
+							e.fieldStores[fv] = append(e.fieldStores[fv], x.Value)
 						}
 					}
 				}
@@ -228,8 +267,36 @@ func (e *taintEngine) kind(v ssa.Value, depth int) SK {
 	return k
 }
 
+// charOfString: v is a byte/rune taken out of a string (s[i], or the rune of a range over s).
+func charOfString(v ssa.Value) (ssa.Value, bool) {
+	switch x := v.(type) {
+	case *ssa.Lookup:
+		if b, ok := x.X.Type().Underlying().(*types.Basic); ok && b.Info()&types.IsString != 0 {
+			return x.X, true
+		}
+	case *ssa.Index:
+		if b, ok := x.X.Type().Underlying().(*types.Basic); ok && b.Info()&types.IsString != 0 {
+			return x.X, true
+		}
+	case *ssa.Extract:
+		if nx, ok := x.Tuple.(*ssa.Next); ok && nx.IsString && x.Index == 2 {
+			if rg, ok := nx.Iter.(*ssa.Range); ok {
+				return rg.X, true
+			}
+		}
+	case *ssa.Convert:
+		if isNumericType(x.X.Type()) {
+			return charOfString(x.X)
+		}
+	}
+	return nil, false
+}
+
 func (e *taintEngine) kind0(v ssa.Value, depth int) SK {
 	if isNumericType(v.Type()) {
+		if src, ok := charOfString(v); ok {
+			return e.kind(src, depth+1) // a character copied out of a string carries the string's kind
+		}
 		return sk(KNum)
 	}
 	switch x := v.(type) {
@@ -255,6 +322,9 @@ func (e *taintEngine) kind0(v ssa.Value, depth int) SK {
 		return e.kind(x.X, depth+1)
 	case *ssa.Convert:
 		if isNumericType(x.X.Type()) {
+			if src, ok := charOfString(x.X); ok {
+				return e.kind(src, depth+1)
+			}
 			return sk(KNum) // string(rune) of a number
 		}
 		return e.kind(x.X, depth+1)
@@ -527,12 +597,14 @@ func (e *taintEngine) freeVarKind(fv *ssa.FreeVar, depth int) SK {
 // resolve replaces parameter dependencies of fn by the join over fn's call sites.
 func (e *taintEngine) resolve(fn *ssa.Function, k SK, depth int) SK {
 	if k.deps == 0 || fn == nil {
-		return SK{k: k.k, why: k.why, srcs: k.srcs}
+		return SK{k: k.k, why: k.why, srcs: k.srcs, esc: k.esc}
 	}
-	out := SK{k: k.k, why: k.why, srcs: k.srcs}
+	out := SK{k: k.k, why: k.why, srcs: k.srcs, esc: k.esc}
 	for i := 0; i < 64 && i < len(fn.Params); i++ {
 		if k.deps&(1<<uint(i)) != 0 {
-			out = skJoin(out, e.argKind(fn, i, depth+1))
+			ak := e.argKind(fn, i, depth+1)
+			ak.esc |= k.esc // escapes applied on the way from the parameter to this value
+			out = skJoin(out, ak)
 		}
 	}
 	return out
@@ -650,6 +722,13 @@ func (e *taintEngine) sprintfKind(c *ssa.CallCommon, fi int, depth int) SK {
 	if !isConst && fi >= 0 {
 		k = e.kind(c.Args[fi], depth+1)
 	}
+	if isConst && e.cfg.onSprintf != nil && len(ops) > 0 {
+		var fn *ssa.Function
+		if p := ops[0].Parent(); p != nil {
+			fn = p
+		}
+		e.cfg.onSprintf(fn, c, format, ops, c.Pos())
+	}
 	verbs := verbKinds(format)
 	for i, o := range ops {
 		if isConst && i < len(verbs) && strings.IndexByte("dfegxXobcUtp", verbs[i]) >= 0 {
@@ -694,6 +773,9 @@ func (e *taintEngine) bufferWriteKind(v ssa.Value, ci ssa.CallInstruction, depth
 		}
 		return sk(KConst)
 	case "(*bytes.Buffer).WriteByte", "(*strings.Builder).WriteByte", "(*bytes.Buffer).WriteRune", "(*strings.Builder).WriteRune":
+		if argIdx == 0 && len(cc.Args) > 1 {
+			return e.kind(cc.Args[1], depth+1)
+		}
 		return sk(KNum)
 	case "fmt.Fprintf":
 		if argIdx == 0 {
@@ -746,10 +828,12 @@ func (e *taintEngine) paramWrites(fn *ssa.Function, pi int, cc *ssa.CallCommon, 
 
 // substitute maps a callee-symbolic kind into the caller's space using the call's arguments.
 func (e *taintEngine) substitute(k SK, cc *ssa.CallCommon, depth int) SK {
-	out := SK{k: k.k, why: k.why, srcs: k.srcs}
+	out := SK{k: k.k, why: k.why, srcs: k.srcs, esc: k.esc}
 	for i := 0; i < 64 && i < len(cc.Args); i++ {
 		if k.deps&(1<<uint(i)) != 0 {
-			out = skJoin(out, e.kind(cc.Args[i], depth+1))
+			ak := e.kind(cc.Args[i], depth+1)
+			ak.esc |= k.esc
+			out = skJoin(out, ak)
 		}
 	}
 	return out
@@ -817,6 +901,14 @@ func (e *taintEngine) callKind(c *ssa.Call, resultIdx int, depth int) SK {
 				k = skJoin(k, e.kind(cc.Args[i], depth+1))
 			}
 		}
+		if (name == "strings.ReplaceAll" || name == "strings.Replace") && len(cc.Args) >= 3 {
+			// s' = ReplaceAll(s, old, new): old is escaped when new is "\"+old (or a different escape of it)
+			if m := escapeMaskOf(cc.Args[1], cc.Args[2]); m != 0 {
+				s0 := e.kind(cc.Args[0], depth+1)
+				s0.esc |= m
+				return skJoin(s0, e.kind(cc.Args[2], depth+1).withoutEsc())
+			}
+		}
 		return k
 	}
 	switch name {
@@ -831,6 +923,9 @@ func (e *taintEngine) callKind(c *ssa.Call, resultIdx int, depth int) SK {
 	}
 	if callee.Blocks != nil && (callee.Pkg == nil || strings.HasPrefix(callee.Pkg.Pkg.Path(), core.Mod)) {
 		rk := e.fnKind(callee, resultIdx, depth+1)
+		if e.cfg.loopEscapers {
+			rk.esc |= loopEscapeMask(callee)
+		}
 		return e.substitute(rk, cc, depth)
 	}
 	// library function the engine has no model for: conservative in the arguments
@@ -1052,4 +1147,93 @@ func concatHasMarkupConst(b *ssa.BinOp) bool {
 		}
 	}
 	return false
+}
+
+func (k SK) withoutEsc() SK { k.esc = 0; return k }
+
+func constString(v ssa.Value) (string, bool) {
+	c, ok := v.(*ssa.Const)
+	if !ok || c.Value == nil || c.Value.Kind() != constant.String {
+		return "", false
+	}
+	return constant.StringVal(c.Value), true
+}
+
+func classOf(s string) uint8 {
+	switch s {
+	case "\\":
+		return escBackslash
+	case "`":
+		return escBacktick
+	case "$", "${":
+		return escDollar
+	case "\"":
+		return escDQuote
+	case "\n":
+		return escNewline
+	case "'":
+		return escSQuote
+	}
+	return 0
+}
+
+// escapeMaskOf: ReplaceAll(s, old, new) escapes class(old) when new is a backslash escape of it.
+func escapeMaskOf(oldV, newV ssa.Value) uint8 {
+	o, ok1 := constString(oldV)
+	n, ok2 := constString(newV)
+	if !ok1 || !ok2 {
+		return 0
+	}
+	c := classOf(o)
+	if c == 0 {
+		return 0
+	}
+	if strings.HasPrefix(n, "\\") && n != o {
+		return c
+	}
+	return 0
+}
+
+var loopMaskMemo = map[*ssa.Function]uint8{}
+
+// loopEscapeMask recognises byte-wise escapers: a function with one string parameter that compares
+// bytes of it with constants and writes a backslash escape for them.
+func loopEscapeMask(fn *ssa.Function) uint8 {
+	if m, ok := loopMaskMemo[fn]; ok {
+		return m
+	}
+	var m uint8
+	if len(fn.Params) == 1 {
+		writesBackslash := false
+		var compared []string
+		for _, b := range fn.Blocks {
+			for _, in := range b.Instrs {
+				switch x := in.(type) {
+				case *ssa.BinOp:
+					if x.Op == token.EQL {
+						for _, side := range []ssa.Value{x.X, x.Y} {
+							if c, ok := side.(*ssa.Const); ok && c.Value != nil && c.Value.Kind() == constant.Int {
+								if v, ok := constant.Int64Val(c.Value); ok && v > 0 && v < 128 {
+									compared = append(compared, string(rune(v)))
+								}
+							}
+						}
+					}
+				case ssa.CallInstruction:
+					for _, a := range x.Common().Args {
+						if sv, ok := constString(a); ok && strings.HasPrefix(sv, "\\") {
+							writesBackslash = true
+						}
+					}
+				}
+			}
+		}
+		if writesBackslash {
+			for _, c := range compared {
+				m |= classOf(c)
+			}
+		}
+	}
+	loopMaskMemo[fn] = m
+	return m
 }
